@@ -65,6 +65,8 @@ package slug
 //@   ghost $lastRemove String = ""
 //@   at-call os.Create#1 C01,C15.unpack.file-not-through-link: $lstatPath == info.Path && ($lstatIsLink ==> $lastRemove == info.Path)
 //@   at-call os.MkdirAll#2 C01,C15.unpack.dir-not-through-link: a0 == info.Path && $lstatPath == info.Path && ($lstatIsLink ==> $lastRemove == info.Path)
+// directories are only made for entries that materialise (file, directory, link), not for pax header entries
+//@   at-call os.MkdirAll C15.unpack.dirs-only-for-materialised-entries: info.Typeflag == tar.TypeDir || info.Typeflag == tar.TypeSymlink || info.Typeflag == tar.TypeReg || info.Typeflag == tar.TypeRegA
 // nothing but a link is ever removed: a directory that was recorded for the deferred restore of its mode and times is
 // still a directory then (chmod and chtimes follow links), and no file or directory is lost to a later entry
 //@   at-call os.Remove C01,C15.unpack.only-links-removed: $lstatPath == a0 && $lstatIsLink
